@@ -236,6 +236,10 @@ def parse_script(lines):
             ops.append(dict(op="send", c=int(p[1]), eof=p[2] == "1", b=unhx(p[3])))
         elif p[0] == "des":
             ops.append(dict(op="des", pw=unhx(p[1]), blk=unhx(p[2])))
+        elif p[0] == "encfail" and len(p) == 2:
+            ops.append(dict(op="encfail", on=p[1] == "1"))
+        elif p[0] == "setlist" and len(p) >= 3:
+            ops.append(dict(op="setlist", s=int(p[1]), fvo=int(p[2]), pws=[unhx(x) for x in p[3:]]))
         elif p[0] == "udpon" and len(p) == 2:
             ops.append(dict(op="udpon", s=int(p[1])))
         elif p[0] == "udp" and len(p) == 3:
@@ -307,6 +311,7 @@ def oracle_case(lines, impl_lines):
     ext_reg_times = {}               # k -> list of (opidx, registered?)
     EXT_TYPES = dict(DEFAULT_EXT_TYPES)   # security types of the application handler objects of this case
     n_in_prev, udp_on = 0, set()
+    encfail_from = None              # op index from which the DES backend fails
     tight_mode = any(o["op"] == "tight" and o["on"] for o in ops)   # object 2 = the library's TightVNC handler
     it = iter(impl_lines)
     crashed_at = None
@@ -319,6 +324,8 @@ def oracle_case(lines, impl_lines):
         if line.startswith("x crashed"):
             crashed_at = idx - 1 if idx else 0
             break
+        if o["op"] == "des" and encfail_from is not None:
+            continue
         if o["op"] == "des":
             got = unhx(line.split()[1]) if line.startswith("des ") else None
             want = vnc_encrypt(o["pw"].split(b"\0")[0], o["blk"]) if len(o["blk"]) == 16 else o["blk"]
@@ -352,12 +359,18 @@ def oracle_case(lines, impl_lines):
             udp_on.add(o["s"])
         if o["op"] == "screen":
             o["scr"]["timeline"] = [(idx, o["scr"].get("content"))]
+            o["scr"]["ltimeline"] = [(idx, o["scr"].get("pws", []), o["scr"].get("fvo", 0))]
             screens.append(o["scr"])
         elif o["op"] == "types":
             EXT_TYPES = dict(zip((2, 3, 4, 5), o["tys"]))
         elif o["op"] == "setfile":
             if o["s"] < len(screens) and screens[o["s"]]["mode"] == "file":
                 screens[o["s"]]["timeline"].append((idx, o["content"]))
+        elif o["op"] == "setlist":
+            if o["s"] < len(screens) and screens[o["s"]]["mode"] == "list":
+                screens[o["s"]]["ltimeline"].append((idx, o["pws"], o["fvo"]))
+        elif o["op"] == "encfail":
+            encfail_from = idx if o["on"] and encfail_from is None else encfail_from
         elif o["op"] in ("reg", "unreg"):
             ext_reg_times.setdefault(o["k"], []).append((idx, o["op"] == "reg"))
         elif o["op"] == "conn":
@@ -389,6 +402,14 @@ def oracle_case(lines, impl_lines):
 
         def pws_at(opidx, scr=scr):
             """the passwords the screen accepts when op number opidx is processed"""
+            if encfail_from is not None and opidx >= encfail_from and scr["mode"] in ("list", "file"):
+                return []                 # failing DES backend: the built-in callbacks can accept nothing
+            if scr["mode"] == "list":
+                cur = scr["ltimeline"][0]
+                for e3 in scr["ltimeline"]:
+                    if e3[0] <= opidx:
+                        cur = e3
+                return [p0.split(b"\0")[0] for p0 in cur[1]]
             if scr["mode"] != "file":
                 return screen_passwords(scr)
             content = None
@@ -561,11 +582,19 @@ def oracle_case(lines, impl_lines):
             cp += 16
             pws = pws_at(sent_op(cp - 1) if sent_op(cp - 1) is not None else len(ops))
             valid_idx = [i for i, pw in enumerate(pws) if vnc_encrypt(pw, chal) == resp]
+            if scr["mode"] == "custom":
+                # application callback of the harness: response = challenge xor 0x5a
+                valid_idx = [0] if resp == bytes(b0 ^ 0x5a for b0 in chal) else []
+            fvo_now = scr.get("fvo", 0)
+            if scr["mode"] == "list":
+                for e3 in scr["ltimeline"]:
+                    if e3[0] <= (sent_op(cp - 1) if sent_op(cp - 1) is not None else len(ops)):
+                        fvo_now = e3[2]
             weak = any(is_weak_key(vnc_key(pw)) for pw in pws)
             result = ss[sp:sp + 4]
             if valid_idx:
                 d["proved"] = True
-                weak = is_weak_key(vnc_key(pws[valid_idx[0]]))
+                weak = scr["mode"] != "custom" and is_weak_key(vnc_key(pws[valid_idx[0]]))
                 if result != b"\0\0\0\0":
                     add("correct-response-rejected",
                         "response = DES(password #%d, challenge) answered with %s" % (valid_idx[0], result.hex() or "close"),
@@ -573,12 +602,12 @@ def oracle_case(lines, impl_lines):
                     continue
                 sp += 4
                 if scr["mode"] == "list":
-                    want_vo = 1 if valid_idx[0] >= scr["fvo"] else 0
+                    want_vo = 1 if valid_idx[0] >= fvo_now else 0
                     k0 = sent_op(cp - 1)
                     vo_seen = [ob["vo"] for k, ob in c["obs"] if k0 is not None and k >= k0]
                     if vo_seen and vo_seen[-1] != want_vo:
                         add("viewonly-wrong", "password #%d (first view-only index %d): viewOnly=%d" %
-                            (valid_idx[0], scr["fvo"], vo_seen[-1]))
+                            (valid_idx[0], fvo_now, vo_seen[-1]))
                 elif any(ob["vo"] for _, ob in c["obs"]):
                     add("viewonly-wrong", "viewOnly set on a password-file screen")
             else:
@@ -688,6 +717,8 @@ class Planner:
         name = name if name is not None else bytes(self.rng.choice(b"abcdefgh") for _ in range(self.rng.randint(0, 5))) + b"%d" % len(self.screens)
         if mode == "none":
             self.lines.append("screen %d %d %s none" % (w, h, hx(name)))
+        elif mode == "custom":
+            self.lines.append("screen %d %d %s custom" % (w, h, hx(name)))
         elif mode == "list":
             self.lines.append("screen %d %d %s list %d %s" % (w, h, hx(name), fvo, " ".join(hx(p) for p in pws)))
         else:
@@ -698,6 +729,10 @@ class Planner:
 
     def passwords(self, s):
         return screen_passwords(self.screens[s])
+
+    def setlist(self, s, pws, fvo):
+        self.lines.append("setlist %d %d %s" % (s, fvo, " ".join(hx(p) for p in pws)))
+        self.screens[s]["pws"], self.screens[s]["fvo"] = pws, fvo
 
     def setfile(self, s, content):
         self.lines.append("setfile %d %s" % (s, hx(content)))
@@ -787,7 +822,8 @@ class Planner:
                 else:
                     c["st"] = "x"
             elif c["st"] == "auth":
-                ok = any(vnc_encrypt(p, c["chal"]) == m for p in self.passwords(c["s"]))
+                ok = any(vnc_encrypt(p, c["chal"]) == m for p in self.passwords(c["s"])) or \
+                     (self.screens[c["s"]]["mode"] == "custom" and m == bytes(b0 ^ 0x5a for b0 in c["chal"]))
                 c["st"] = "init" if ok else "x"
             elif c["st"] == "init":
                 c["st"] = "normal"
@@ -821,6 +857,8 @@ class Planner:
         ch = c["chal"] if c["chal"] is not None else bytes(self.rng.randrange(256) for _ in range(16))
         pws = self.passwords(c["s"])
         if kind == "correct":
+            if self.screens[c["s"]]["mode"] == "custom":
+                return bytes(b0 ^ 0x5a for b0 in ch)
             p = pw if pw is not None else (self.rng.choice(pws) if pws else b"x")
             return vnc_encrypt(p, ch)
         if kind == "echo":
@@ -1162,6 +1200,79 @@ def gen_tight(rng, k, weak_pool):
     return L
 
 
+def gen_custom(rng, k, weak_pool):
+    """a screen whose passwordCheck is an application callback (response = challenge xor 0x5a)"""
+    pl = Planner(rng, k, "custom")
+    s = pl.screen("custom")
+    if rng.random() < 0.4:
+        o = pl.screen("none")
+        pl.conn(o, False, b"RFB 003.008\n")
+    ci = pl.conn(s, rng.random() < 0.1, rng.choice([b"RFB 003.003\n", b"RFB 003.007\n", b"RFB 003.008\n", b"RFB 003.889\n"]))
+    if pl.conns[ci]["st"] == "sec":
+        pl.send(ci, bytes([rng.choice([2, 2, 2, 1, 16])]))
+    if pl.conns[ci]["st"] == "auth":
+        kind = rng.choice(["correct", "correct", "echo", "zeros", "flip", "random"])
+        r = pl.response(ci, kind)
+        if kind == "flip":
+            r0 = bytearray(pl.response(ci, "correct")); r0[rng.randrange(16)] ^= 1 << rng.randrange(8); r = bytes(r0)
+        pl.send(ci, r)
+    if pl.conns[ci]["st"] == "init":
+        pl.send(ci, b"\1")
+    return pl.lines
+
+
+def gen_listchange(rng, k, weak_pool):
+    """authPasswdData / authPasswdFirstViewOnly of a password-list screen replaced between connections and
+    between the challenge and the response of a connection"""
+    pl = Planner(rng, k, "list-change")
+    pa, pb, pc = rng.sample(NORMAL_PWS + weak_pool[:3], 3)
+    s = pl.screen("list", pws=[pa], fvo=rng.choice([0, 1, 1]))
+    vers = [b"RFB 003.003\n", b"RFB 003.007\n", b"RFB 003.008\n"]
+    def to_auth():
+        ci = pl.conn(s, False, rng.choice(vers))
+        if pl.conns[ci]["st"] == "sec":
+            pl.send(ci, b"\2")
+        return ci
+    for _ in range(rng.randint(2, 4)):
+        ci = to_auth()
+        if rng.random() < 0.6:
+            pl.setlist(s, rng.choice([[pb], [pa, pb], [pb, pa], [pc, pa, pb], []]), rng.choice([0, 1, 2]))
+        if pl.conns[ci]["st"] == "auth":
+            pl.send(ci, pl.response(ci, "correct", pw=rng.choice([pa, pb, pc, None])))
+        if pl.conns[ci]["st"] == "init":
+            pl.send(ci, b"\1")
+        if rng.random() < 0.4:
+            pl.setlist(s, rng.choice([[pa], [pb, pc], [pa, pb, pc]]), rng.choice([0, 1, 3]))
+    return pl.lines
+
+
+def gen_encfail(rng, k, weak_pool):
+    """the DES backend fails (gcry_cipher_setkey refuses every key): rfbEncryptBytes fails closed with
+    random bytes, rfbDecryptPasswdFromFile returns NULL: nobody is let in by the built-in callbacks"""
+    pl = Planner(rng, k, "encfail")
+    s = pick_pw_screen(pl, rng, weak_pool)
+    pws = pl.passwords(s)
+    ci = pl.conn(s, False, rng.choice([b"RFB 003.003\n", b"RFB 003.008\n", b"RFB 003.007\n"]))
+    if pl.conns[ci]["st"] == "sec":
+        pl.send(ci, b"\2")
+    when = rng.random()
+    if when < 0.7:
+        pl.lines.append("encfail 1")
+    if pl.conns[ci]["st"] == "auth":
+        pl.send(ci, pl.response(ci, rng.choice(["correct", "correct", "echo", "zeros", "random"])))
+    if when >= 0.7:
+        pl.lines.append("encfail 1")
+        c2 = pl.conn(s, False, b"RFB 003.008\n")
+        pl.send(c2, b"\2")
+        if pl.conns[c2]["st"] == "auth":
+            pl.send(c2, pl.response(c2, "correct"))
+    # whatever the planner believes, feed ClientInit to every connection: an implementation that let
+    # somebody in becomes visible
+    for j in range(len(pl.conns)):
+        pl.lines.append("send %d 0 01" % j)
+    return pl.lines
+
+
 def gen_udp(rng, k, weak_pool):
     """screens with the UDP input port open (screen->udpPort): datagrams from a peer that never spoke RFB,
     on protected and open screens, interleaved with ordinary handshakes"""
@@ -1272,6 +1383,12 @@ def gen_cases(ctx):
         cases.append(gen_tight(rng, len(cases), weak_pool))
     for _ in range(120 * scale):
         cases.append(gen_udp(rng, len(cases), weak_pool))
+    for _ in range(100 * scale):
+        cases.append(gen_custom(rng, len(cases), weak_pool))
+    for _ in range(120 * scale):
+        cases.append(gen_listchange(rng, len(cases), weak_pool))
+    for _ in range(80 * scale):
+        cases.append(gen_encfail(rng, len(cases), weak_pool))
     cases += gen_fvo_sweep(rng, len(cases))
     cases = [c for c in cases if script_ok(c)]
     for i, c in enumerate(cases):
@@ -1303,7 +1420,7 @@ def sync_extraction(pid, extract_vo):
 
 
 def build(ctx):
-    cexe = vlib.build_harness("vdrv_auth", ["vdrv_auth.c"], wraps=("random",))
+    cexe = vlib.build_harness("vdrv_auth", ["vdrv_auth.c"], wraps=("random", "gcry_cipher_setkey"))
     proof_ok = vlib.prove(ctx, PROP_FILE, [EXTRACT])
     sync_extraction("C05", EXTRACT)
     mexe = vlib.build_ocaml("C05", "driver_C05.ml", EXTRACT)
